@@ -33,8 +33,15 @@ impl FlightIngestService {
             return Ok(0);
         }
 
-        let batches = flight_data_to_batches(&payload)
-            .map_err(|e| crate::Error::InvalidSchema(format!("Flight IPC decode failed: {e}")))?;
+        // The Arrow IPC decoder panics on some malformed messages (it unwraps fields of the
+        // client-supplied flatbuffers): turn that into the same error as a decode failure.
+        let batches = std::panic::catch_unwind(std::panic::AssertUnwindSafe(|| {
+            flight_data_to_batches(&payload)
+        }))
+        .map_err(|_| {
+            crate::Error::InvalidSchema("Flight IPC decode failed: malformed message".to_string())
+        })?
+        .map_err(|e| crate::Error::InvalidSchema(format!("Flight IPC decode failed: {e}")))?;
 
         let mut total_rows = 0u64;
         for batch in batches {
